@@ -27,7 +27,7 @@ class C10(object):
     assumptions = ['steady-state initialisation off', "initial conditions are spelled X(0) as the model emits them",
                    'a horizon assigned to the solver after ParseString is not "the horizon" (picked up on next parse)']
     required_counters = ('length.judged', 'exo.judged', 'ic.judged', 'lag.judged', 'time.judged', 'reject.judged',
-                         'model.judged')
+                         'model.judged', 'solver_reused.cases', 'ic_on_default_time.judged')
 
     def n_cases(self, tier):
         return 320 if tier == 'quick' else 30000
@@ -52,8 +52,15 @@ class C10(object):
         for nm in rng.sample(cands, min(len(cands), rng.randint(0, 4))):
             spec['ics'][nm] = G.nice(rng, -5.0, 20.0) if rng.random() < 0.8 else float(rng.randint(-3, 9))
         via = rng.choice(['line', 'line', 'solver'])
-        return {'kind': 'solve', 'spec': spec, 'text': G.render(spec, with_params=(via == 'line')),
-                'via': via, 'reduction': rng.random() < 0.5}
+        if spec['time'] is None and rng.random() < 0.3:
+            spec['ics']['t'] = rng.choice([1990.0, 2000.0, -1.0, 0.5])     # initial condition on the DEFAULT time axis
+        case = {'kind': 'solve', 'spec': spec, 'text': G.render(spec, with_params=(via == 'line')),
+                'via': via, 'reduction': rng.random() < 0.5, 'earlier': None}
+        if via == 'line' and rng.random() < 0.35:
+            # the same solver object has already parsed and solved another block with another horizon
+            other = G.gen_affine(rng, n_simul=rng.randint(1, 3), rho=0.3, tol=1e-9, maxtime=rng.choice([0, 1, 2, 3, 7, 20]))
+            case['earlier'] = G.render(other)
+        return case
 
     def make_model_case(self, rng):
         T = rng.randint(1, 25)
@@ -139,12 +146,24 @@ class C10(object):
         if case['via'] == 'solver':
             solver.MaxTime = T
             solver.ParameterErrorTolerance = 1e-9
+        if case.get('earlier'):
+            try:
+                with contextlib.redirect_stdout(io.StringIO()):
+                    solver.ParseString(case['earlier'])
+                    solver.SolveEquation()
+            except ValueError:
+                pass
+            rec.count('solver_reused.cases')
         try:
             with contextlib.redirect_stdout(io.StringIO()):
                 solver.ParseString(case['text'])
                 solver.SolveEquation()
         except ValueError as e:
             return {'verdict': 'notjudged', 'shape': 'solve|' + type(e).__name__, 'obs': {'err': str(e)[:200]}}
+        except (NameError, KeyError, AssertionError) as e:
+            rec.violate('well_formed_block_fails', {'err': repr(e)[:300], 'text': case['text'],
+                                                    'after_earlier_block': bool(case.get('earlier'))})
+            return {'verdict': 'violated', 'shape': 'solve', 'counters': rec.counters, 'violations': rec.violations}
         ts = solver.TimeSeries
         self.judge_series(rec, ts, spec, T, case)
         nontrivial = bool(spec['exos'] or spec['ics'])
@@ -189,7 +208,9 @@ class C10(object):
             rec.violate('k_axis_wrong', {'got': list(ts['k'])[:8]})
         if spec['time'] is None:
             if list(ts['t'])[1:] != [float(i) for i in range(1, T + 1)]:
-                rec.violate('time_axis_not_k', {'got': list(ts['t'])[:8]})
+                rec.violate('time_axis_not_k', {'got': list(ts['t'])[:8], 'initial_condition_on_t': spec['ics'].get('t')})
+            if 't' in spec['ics']:
+                rec.count('ic_on_default_time.judged')
         else:
             for k in range(1, T + 1):
                 exp = G.ev(spec['time']['expr'], {'k': float(k)})
